@@ -1115,7 +1115,16 @@ class C06(Prop):
             self.extra["renders"] += 1
             try:
                 out = env.get_template(f"t{start}").render()
-            except (ContextDepthError, TemplateInheritanceError):
+            except (ContextDepthError, TemplateInheritanceError) as err:
+                cause = err.__cause__
+                while cause is not None and not isinstance(cause, RecursionError):
+                    cause = cause.__cause__
+                if lim <= 5 and cause is not None:
+                    # the engine reports an exhausted interpreter stack as ContextDepthError; with a limit of 2 or 5
+                    # the configured bound must stop the recursion long before that
+                    res.fail("recursion", f"recursion:{shape}:limit-not-enforced",
+                             f"context_depth_limit={lim}: the recursion ran until the interpreter's stack was "
+                             f"exhausted; {ctxt}")
                 continue
             except LiquidError as err:
                 res.labels.append(f"graph-other-error:{type(err).__name__}")
